@@ -955,7 +955,7 @@ def gen_item_C12(rng, idx, tier):
         # a long periodic axis (a survey strip): a structure straddling the edge, far more columns than a byte holds
         L = rng.choice([171, 200, 250, 255, 256, 300])
         r_ = rng.choice([1, 2, 3])
-        if rng.random() < 0.12 * float(os.environ.get('VERIF_LONG_AXIS', '0')) / 0.004:
+        if rng.random() < 0.12 * float(os.environ.get('VERIF_LONG_AXIS', '0.004')) / 0.004:
             # ... and more than 16 bits hold (signed or unsigned)
             L = rng.choice([32770, 33000, 40000, 65540, 70000])
             r_ = 1
@@ -966,7 +966,7 @@ def gen_item_C12(rng, idx, tier):
         k = [0] * (r_ * L)
         w1, w2 = rng.randint(1, 6), rng.randint(1, 10)
         cols = list(range(L - w1, L)) + list(range(0, w2))
-        mid = rng.randint(30, L - 40) if L < 1000 else rng.choice([32760, 32768, L - 200, L // 2])
+        mid = rng.randint(30, L - 40) if L < 1000 else min(L - 8, rng.choice([32760, 32768, L - 200, L // 2]))
         for c_ in cols + list(range(mid, mid + rng.randint(1, 5))):
             for row in range(r_):
                 if rng.random() < 0.85:
